@@ -555,7 +555,9 @@ SHEETS = {
     'celllike': ['A1', 'XFD1048576', 'R1C1', 'RC', 'r', 'C', 'TRUE', 'AB12'],
 }
 BOOKS = [None, None, ['', 'b.xlsx'], ['', 'Book 1.xlsx'], ['sub', 'b.xlsx'], ['sub/dir', 'my-book.xlsx'],
-         ['..', 'up.xlsx'], ['', 'données.xlsx'], ['a b', 'c d.xlsx']]
+         ['..', 'up.xlsx'], ['', 'données.xlsx'], ['a b', 'c d.xlsx'],
+         # file names that start with a digit (must not be taken for numbered links [k]) - added after seed c04-b-r2
+         ['', '2024_report.xlsx'], ['sub', '1st quarter.xlsx'], ['', '3d.xlsx']]
 _ALPHA = [c for c in SHEET_CHARS if c != "'"]
 
 
@@ -689,7 +691,7 @@ def _near_case(draw, tier):
     elif kind == 'file':
         if book is None:
             a['book'] = book = ['', 'b.xlsx']
-        b['book'] = [book[0], draw(st.sampled_from(['c.xlsx', 'b2.xlsx', 'b.xlsm', 'b b.xlsx', 'xb.xlsx']))]
+        b['book'] = [book[0], draw(st.sampled_from(['c.xlsx', 'b2.xlsx', 'b.xlsm', 'b b.xlsx', 'xb.xlsx', '2b.xlsx']))]
     elif kind == 'dir':
         if book is None:
             a['book'] = book = ['', 'b.xlsx']
